@@ -419,6 +419,14 @@ def run(ck):
             return is_trim, inner[3][0][0]
         return False, inner
     is_trim, src = trimmed_image(qt)
+    if not is_trim and src[0] == "app" and "CmapReader" not in src[1]:
+        # the reading and trimming sit in a local function / helper of one expression: judge what it spells out
+        from ..rules.common import expand_simple_apps
+        qt2 = expand_simple_apps(ck, qt, 1)
+        is_trim, src = trimmed_image(qt2)
+        if not is_trim and not (src[0] == "app" and "CmapReader" in src[1]):
+            raise AnalysisError(f"{where(rm, qn)}: what is stored in self.queryMaps is not read as reader result / trimmed reader result: "
+                                f"{T.show(qt)[:160]}")
     ck.judge(bool(is_trim) and src[0] == "app" and src[1].endswith("CmapReader.readQueries"), "C17.4", "Program.__readMaps:queries",
              where(rm, qn), "every query is trimmed (QryLen is measured from the first to the last label)",
              found=T.show(qt)[:200], required="[q.trim() for q in readQueries(...)]")
